@@ -66,6 +66,7 @@ fn main() {
         let meta: Value = serde_json::from_slice(&std::fs::read(dir.join("expected.json")).unwrap()).unwrap();
         let ks = meta["ks"].as_u64().unwrap() as usize;
         let nkeys = meta["nkeys"].as_u64().unwrap();
+        SCRAMBLED_KEYS.store(meta["keymap"].as_str().unwrap_or("") == "scr", std::sync::atomic::Ordering::SeqCst);
         let exp: ObsJ = serde_json::from_value(meta["expected"].clone()).expect("expected obs");
         let payloads: Vec<(u64, usize)> = meta["payloads"].as_object().unwrap().iter().map(|(k, v)| (k.parse().unwrap(), v.as_u64().unwrap() as usize)).collect();
         let mut cfg = HCfg::default();
